@@ -594,6 +594,57 @@ pub(crate) mod verif_js_op {
             Err(_) => assert!(false, "two JSON numbers are always numeric operands"),
         }
     }
+    /// `+` / `*` on real JSON integers (conversions NOT stubbed): the left fold of IEEE-754 operations on their
+    /// doubles - 2^53 + 1 + 1 is 2^53, not 2^53 + 2
+    pub(crate) fn body_fold_numbers(n: usize, mul: bool) {
+        let sel: [usize; 3] = [kani::any(), kani::any(), kani::any()];
+        kani::assume(sel[0] < 10 && sel[1] < 10 && sel[2] < 10);
+        let vals = [
+            MD::new(Value::Number(grid_number(sel[0], false))),
+            MD::new(Value::Number(grid_number(sel[1], kani::any()))),
+            MD::new(Value::Number(grid_number(sel[2], false))),
+        ];
+        let mut items: Vec<&Value> = Vec::with_capacity(3);
+        let mut acc: f64 = if mul { 1.0 } else { 0.0 };
+        let mut i = 0;
+        while i < n {
+            items.push(&*vals[i]);
+            let x = INT_GRID[sel[i]] as f64;
+            acc = if mul { acc * x } else { acc + x };
+            i += 1;
+        }
+        let items = MD::new(items);
+        #[cfg(verif_replay)]
+        eprintln!("REPLAY-INPUT: {} over {:?}", if mul { "*" } else { "+" }, &*items);
+        let r = MD::new(if mul { parse_float_mul(&items) } else { parse_float_add(&items) });
+        kani::cover!(true, "returned");
+        match &*r {
+            Ok(v) => assert!(same_f64(*v, acc), "+ / * on JSON numbers: the left fold of IEEE-754 operations on the operands' doubles (integers above 2^53 are their nearest double)"),
+            Err(_) => assert!(false, "JSON numbers are always numeric operands"),
+        }
+    }
+    macro_rules! fold_numbers_harness {
+        ($name:ident, $n:expr, $mul:expr) => {
+            #[cfg_attr(kani, kani::proof)]
+            #[cfg_attr(kani, kani::unwind(6))]
+            #[cfg_attr(kani, kani::stub(<serde_json::Value as std::clone::Clone>::clone, crate::verif_support::value_clone_shallow))]
+            #[cfg_attr(kani, kani::stub(crate::js_op::to_string, to_string_stub))]
+            #[cfg_attr(kani, kani::stub(std::fmt::format, crate::verif_support::fmt_stub))]
+            pub(crate) fn $name() {
+                body_fold_numbers($n, $mul);
+            }
+        };
+    }
+    //@ob name=C10.fold.add.numbers2 harness=k_c10_fold_add_numbers2 props=C10,C01 strength=bounded bound="2 operands out of 10 integers (0,1,2,3,-7,10,2^53,2^53+1,i64::MAX,i64::MIN); real conversions" fns=js_op::parse_float_add,js_op::parse_float stubs=3 replay=generic timeout=400
+    //@ desc="`+` on two JSON integers is the IEEE-754 sum of their doubles (9007199254740993 + 1 is 9007199254740992)"
+    fold_numbers_harness!(k_c10_fold_add_numbers2, 2, false);
+    //@ob name=C10.fold.add.numbers3 harness=k_c10_fold_add_numbers3 props=C10,C01 strength=bounded bound="3 operands out of the same 10 integers; real conversions" fns=js_op::parse_float_add,js_op::parse_float stubs=3 replay=generic timeout=600
+    //@ desc="`+` on three JSON integers is the LEFT fold of IEEE-754 sums"
+    fold_numbers_harness!(k_c10_fold_add_numbers3, 3, false);
+    //@ob name=C10.fold.mul.numbers2 harness=k_c10_fold_mul_numbers2 props=C10,C01 strength=bounded bound="2 operands out of the same 10 integers; real conversions" fns=js_op::parse_float_mul,js_op::parse_float stubs=3 replay=generic timeout=600
+    //@ desc="`*` on two JSON integers is the IEEE-754 product of their doubles"
+    fold_numbers_harness!(k_c10_fold_mul_numbers2, 2, true);
+
     macro_rules! arith_numbers_harness {
         ($name:ident, $which:expr) => {
             #[cfg_attr(kani, kani::proof)]
@@ -1366,7 +1417,7 @@ pub(crate) mod verif_js_op {
     }
     const ALPHA_NUM: [u8; 12] = [b'0', b'1', b'9', b'.', b'-', b'+', b'e', b'E', b' ', b'\t', b'x', b'a'];
     const ALPHA_WORD: [u8; 12] = [b'i', b'n', b'f', b'I', b'N', b'a', b't', b'y', b'1', b'-', b' ', b'A'];
-    const ALPHA_RADIX: [u8; 10] = [b'0', b'x', b'X', b'b', b'o', b'1', b'7', b'f', b'-', b'g'];
+    const ALPHA_RADIX: [u8; 11] = [b'0', b'x', b'X', b'b', b'o', b'1', b'7', b'f', b'-', b'g', b'+'];
     macro_rules! s2n_harness {
         ($name:ident, $n:expr, $alpha:expr) => {
             #[cfg_attr(kani, kani::proof)]
